@@ -47,6 +47,12 @@ def obligations(ctx):
     # the module-level clause: NTT120 vec_znx_dft followed by vec_znx_idft / idft_tmp_a returns exactly the int64 input (N = 1 included)
     from vf.props import c16, apigen
     obs += c16.ntt_module_obs(ctx, apigen.tables(ctx))
+    # zero-extension on the NTT120 backend with an empty / shorter input: output limbs beyond the input size exactly zero whatever the buffers held (bit-precise)
+    tt = apigen.tables(ctx)
+    for nn in (2, 4):
+        for api in (1, 2, 3):
+            for (rsz, asz) in ((2, 0), (1, 0), (3, 1)):
+                obs.append(apigen.api_ob(tt, api, nn, 1, 1, rsz, asz, tag="zero-rows/"))
     return obs
 
 
